@@ -18,6 +18,8 @@ type LoopAnn struct {
 	Inv       []*Clause
 	Unfold    []*SExp
 	Decreases *SExp
+	Apply     []*SExp   // facts justified by lemmas, assumed at the loop head
+	Asserts   []*Clause // proof steps checked (then assumed) at the end of an iteration, before the invariant
 }
 
 type Contract struct {
@@ -44,6 +46,7 @@ type Contract struct {
 	Unfolds   []*SExp              // exit-time unfold instances
 	Tables    []*TableAx
 	FreshFields []*SExp
+	Returns   [][2]*SExp // (returns <result leaf> <term>): exact definition of a result leaf
 	Int       bool
 }
 
@@ -180,6 +183,8 @@ func (p *Prog) parseContract(x *SExp, pkg string) (*Contract, error) {
 			c.Escapes = append(c.Escapes, args...)
 		case "fresh":
 			c.Fresh = append(c.Fresh, args...)
+		case "returns":
+			c.Returns = append(c.Returns, [2]*SExp{args[0], args[1]})
 		case "fresh-field":
 			c.FreshFields = append(c.FreshFields, it)
 		case "ghost-set":
@@ -223,6 +228,10 @@ func (p *Prog) parseContract(x *SExp, pkg string) (*Contract, error) {
 					la.Unfold = append(la.Unfold, la2...)
 				case "decreases":
 					la.Decreases = la2[0]
+				case "apply":
+					la.Apply = append(la.Apply, la2...)
+				case "assert":
+					la.Asserts = append(la.Asserts, &Clause{Label: la2[0].Atom, X: la2[1]})
 				default:
 					return nil, fmt.Errorf("%s: unknown loop clause %s", name, li.Head())
 				}
@@ -312,6 +321,7 @@ func (p *Prog) loadSpecFile(path string) error {
 			f.Body = x.List[4]
 			p.SpecFns[f.Name] = f
 			add(p.printDefine(x.Head(), f))
+			p.OpaqueDecl[p.printDefine(x.Head(), f)] = p.printDecl(f)
 		case "defrec":
 			// (defrec name ((p S)...) R body): uninterpreted symbol + defining equation used by unfold
 			f := &SpecFn{Name: x.List[1].Atom}
@@ -743,6 +753,8 @@ func (p *Prog) elab(fx *Fx, x *SExp, env *Env) Val {
 	case "trunc":
 		w, _ := strconv.Atoi(args[1].Atom)
 		return tv(Extract(w-1, 0, T(0)))
+	case "apply-lemma":
+		return tv(p.applyLemma(fx, x, env))
 	case "fresh-obj":
 		// the object did not exist on entry
 		v := p.elab(fx, args[0], env)
